@@ -287,12 +287,20 @@ type pooledConn struct {
 	mu       sync.RWMutex
 	c        *boundedPool
 	unusable bool
+	closed   bool
 }
 
 // Close puts the given connects back to the pool instead of closing it.
+// Closing it again has no effect: the connection may already belong to
+// another caller.
 func (p *pooledConn) Close() error {
-	p.mu.RLock()
-	defer p.mu.RUnlock()
+	p.mu.Lock()
+	defer p.mu.Unlock()
+
+	if p.closed {
+		return nil
+	}
+	p.closed = true
 
 	if p.unusable {
 		if p.Conn != nil {
